@@ -283,6 +283,35 @@ theorem C17_loop_exit_means_all_types_decided (os order : List Pass.Obj) (s0 : P
   | canprocess => exact Or.inl rfl
   | processed => exact Or.inr rfl
 
+/-- **Entities too.**  `checkEnts` runs once after the type loop.  When that loop has been left, one sweep over the entities
+    of the schema decides every one of them: afterwards every type AND every entity of the schema is CANPROCESS (or already
+    PROCESSED), nothing is CANTPROCESS and the schema is not set back — `SCOPEPrint` calls `TYPEPrint`/`ENTITYPrint` for all of
+    them in this one pass.  Hypotheses: the schema is `Ready` (see above), its entities are its own, and every select it
+    knows is one of its types or a (processed) foreign one. -/
+theorem C17_schema_all_objects_decided (p : Pass.PSchema) (s0 : Pass.St) (hr : Pass.Ready p.os p.types s0)
+    (hents : ∀ o ∈ p.ents, Pass.isForeign p.os o.name = false)
+    (hsel : ∀ i o, Pass.lookup p.os i = some o → o.isSelect = true → o.foreign = true ∨ ∃ t ∈ p.types, t.name = i)
+    (k : Nat) (hexit : (Pass.runFrom Generated.CxxPass.sweepLoop Generated.CxxPass.enumLastCase p.os p.types s0 k).exited = true) :
+    let s := Pass.sweep Generated.CxxPass.enumLastCase p.os p.ents
+               (Pass.runFrom Generated.CxxPass.sweepLoop Generated.CxxPass.enumLastCase p.os p.types s0 k).st
+    Pass.suffixes s = [0] ∧ (∀ n, s.marks n ≠ .cantprocess) ∧
+    (∀ o ∈ p.ents, s.marks o.name ≠ .notknown) ∧ (∀ o ∈ p.types, s.marks o.name ≠ .notknown) := by
+  have hc : Generated.CxxPass.enumLastCase = .inSchemaOrProcessed := by decide
+  have hl : Generated.CxxPass.sweepLoop = .untilSettled ∨ Generated.CxxPass.sweepLoop = .untilSettledOrStalled := by decide
+  rw [hc] at hexit ⊢
+  have inv := Pass.run_inv _ hl p.os p.types s0 hr k
+  have hset := inv.2.2 hexit
+  have hss : Pass.SelSettled p.os (Pass.runFrom Generated.CxxPass.sweepLoop .inSchemaOrProcessed p.os p.types s0 k).st.marks := by
+    intro i o hl' hs'
+    rcases hsel i o hl' hs' with hf | ⟨t, ht, hn⟩
+    · rw [inv.2.1 i (by rw [Pass.isForeign_of_lookup p.os i o hl']; exact hf)]; decide
+    · rw [← hn]; exact hset t ht
+  have r := Pass.sweep_entities_decided p.os p.ents hents _ inv.1 inv.2.1 hss
+  refine ⟨by simp [Pass.suffixes, r.1.2], r.1.1, r.2.2.2.1, ?_⟩
+  intro o ho
+  rw [r.2.2.2.2 o.name (hset o ho)]
+  exact hset o ho
+
 /-- … in particular for a self-contained schema started with everything NOTKNOWN. -/
 theorem C17_self_contained_schema_one_pass_loop (os order : List Pass.Obj) (hnd : (order.map (·.name)).Nodup)
     (hnf : ∀ n, Pass.isForeign os n = false) (k : Nat) :
